@@ -13,11 +13,14 @@ PROPS_V = "Props/C17.v"
 # a difference is reported as broken-correspondence: the theorems then no longer speak about the current source)
 SOURCE_GUARDS = [
     ("esr/generation/simplifier.py", "load_subs"),
-    ("esr/generation/simplifier.py", "get_all_dup"),
 ]
 
-TRANSLATORS = ["cancel", "requote"]
+TRANSLATORS = ["cancel", "requote", "alldup"]
 TRUSTED = [
+    "translator harness/translate/alldup.py: simplifier.get_all_dup is regenerated into Gen/GenAllDup.v on every run (preamble matched literally: all_a is the "
+    "list of the symbols a0..a_{k-1}; str({a: -a}), str({a: 1/a}), str({a_i: a_j, a_j: a_i}) become the constructors SNeg/SInv/SRen of the hand model's "
+    "abstraction of the printed strings -- sympy's printing of these dicts is trusted to be injective; itertools.combinations(np.flip(np.arange(k)), 2) "
+    "is Common/Np.np_combinations2 on the reversed index list) and proved equal to the model's list for every max_param (C17_code_all_dup_is_model)",
     "Coq 8.16.1 kernel + vm_compute (no native_compute)",
     "Print Assumptions: text-side theorems, loop = cancel, all_dup_spec, removes_pairs, nan, and the rational-number (Qc) composition theorem are closed "
     "under the global context; the real-number statements (C17_all_dup_involutive, C17_cancel_preserves_composition) list the standard-library Reals axioms "
